@@ -159,7 +159,9 @@ Record oracle := {
   o_last : option pval;       (* configurationStore.store hands &pv of the range variable to the Atomix transaction,
                                  which encodes at Commit: every Insert/Update of one call writes the LAST iterated
                                  value (Go < 1.22 loop variable).  Some l = that value; None = each its own (repaired) *)
-  o_master : N                (* relation picked by rand.Intn in the mastership reconciler *)
+  o_master : N;               (* relation picked by rand.Intn in the mastership reconciler *)
+  o_alloc : bool              (* false: the code as it is - writing to a nil Committed.Values map panics;
+                                 true: the map is allocated first (proposed repair fixes/C20-1.patch) *)
 }.
 
 Inductive eff :=
@@ -364,10 +366,10 @@ Definition commit_change (o : oracle) (w : world) (i : N) (t : txn) (c : config)
             let c1 := cfg_cm c (cur_with cm i (k_ordinal cm) (k_revision cm) (k_target cm) i) in
             Some ([EPutTx i t' [ev PhChange StCommit i Failed]; put_cfg w c c1 []], RDone)
         | VAccept =>
-            match cv, t_values t with
-            | [], _ :: _ => (* configuration.Committed.Values is a nil map: assignment to entry in nil map *)
+            match (if o_alloc o then [] else [tt]), cv, t_values t with
+            | _ :: _, [], _ :: _ => (* configuration.Committed.Values is a nil map: assignment to entry in nil map *)
                 Some ([EPanic], RPanic)
-            | _, _ =>
+            | _, _, _ =>
                 let c1 := cfg_cm c (cur_with cm i (k_ordinal cm + 1) i (k_target cm) i) in
                 let t' := tx_set_change t Complete (t_ca t) (k_ordinal cm + 1) (t_ccfail t) (t_cafail t) in
                 Some ([EPutCfg c1 (overlay cv (t_values t)) (aview_opt w) [ev PhChange StCommit i Complete]; EPutTx i t' []],
@@ -485,9 +487,9 @@ Definition commit_rollback (o : oracle) (w : world) (i : N) (t : txn) (c : confi
         else None
   | Some InProgress =>
       if k_revision cm =? i then
-        match cv, t_rvalues t with
-        | [], _ :: _ => Some ([EPanic], RPanic)
-        | _, _ =>
+        match (if o_alloc o then [] else [tt]), cv, t_rvalues t with
+        | _ :: _, [], _ :: _ => Some ([EPanic], RPanic)
+        | _, _, _ =>
             Some ([EPutCfg (cfg_cm c (cur_with cm i (k_ordinal cm + 1) (t_ridx t) (k_target cm) (k_change cm)))
                            (overlay cv (t_rvalues t)) (aview_opt w) [ev PhRollback StCommit i Complete];
                    EPutTx i (set_rc t Complete (k_ordinal cm + 1)) []], RDone)
@@ -644,7 +646,7 @@ Inductive label :=
 | LConn (id : N) (up : bool)
 | LDevRestart.
 
-Definition o0 : oracle := {| o_verdict := VAccept; o_code := 0; o_last := None; o_master := 0 |}.
+Definition o0 : oracle := {| o_verdict := VAccept; o_code := 0; o_last := None; o_master := 0; o_alloc := false |}.
 
 Definition new_txn (vs : vals) : txn :=
   {| t_rb := false; t_values := vs; t_cc := Pending; t_ca := Pending; t_cord := 0; t_ccfail := 0; t_cafail := 0;
